@@ -561,7 +561,7 @@ pub fn check<P: Property>(p: &P, opt: &Options) -> i32 {
     let total = opt.runs.unwrap_or_else(|| p.runs(opt.tier));
     let started = Instant::now();
     let counter = AtomicU64::new(0);
-    let inflight: Mutex<BTreeMap<usize, (u64, Instant)>> = Mutex::new(BTreeMap::new());
+    let inflight: Mutex<BTreeMap<usize, (u64, Instant, std::sync::Arc<std::sync::atomic::AtomicBool>)>> = Mutex::new(BTreeMap::new());
     let done = std::sync::atomic::AtomicBool::new(false);
     let run_times = AtomicU64::new(0);
 
@@ -597,7 +597,13 @@ pub fn check<P: Property>(p: &P, opt: &Options) -> i32 {
             while !done.load(Ordering::Relaxed) {
                 std::thread::sleep(std::time::Duration::from_millis(500));
                 let g = inflight.lock().unwrap();
-                for (_, (index, t0)) in g.iter() {
+                for (_, (index, t0, in_op)) in g.iter() {
+                    if t0.elapsed().as_secs() >= 120 && !in_op.load(Ordering::Relaxed) {
+                        // not inside a library operation: the generator or an oracle of the
+                        // harness is stuck, which says nothing about the property
+                        out(&format!("HARNESS-ERROR run {} spent more than 120 s outside any library operation (generator or oracle code); re-run with --only-run {}", index, index));
+                        std::process::exit(2);
+                    }
                     if t0.elapsed().as_secs() >= 120 {
                         let dir = opt.verif_dir.join("replays");
                         let _ = std::fs::create_dir_all(&dir);
@@ -644,13 +650,15 @@ pub fn check<P: Property>(p: &P, opt: &Options) -> i32 {
                     viol_kinds: BTreeMap::new(),
                     samples: BTreeMap::new(),
                 };
+                let in_op_flag = std::sync::Arc::new(std::sync::atomic::AtomicBool::new(false));
+                crate::env::IN_OP_SHARED.with(|f| *f.borrow_mut() = Some(in_op_flag.clone()));
                 loop {
                     let i = counter.fetch_add(1, Ordering::Relaxed);
                     if i >= batch_end {
                         break;
                     }
                     let t0 = Instant::now();
-                    inflight.lock().unwrap().insert(w, (i, t0));
+                    inflight.lock().unwrap().insert(w, (i, t0, in_op_flag.clone()));
                     one_run(p, opt, i, &mut local);
                     if slow_debug && t0.elapsed().as_millis() > 500 {
                         eprintln!("slow run {} took {} ms", i, t0.elapsed().as_millis());
